@@ -43,7 +43,7 @@ BOUNDED = [
         "script": "replay/c11_native.py",
         "args_quick": ["--seeds", "4"],
         "args_thorough": ["--seeds", "32"],
-        "bound": "12 scripts (write-only statement, names differing only in letter case, chains, self loop, diamond paths, metadata-positional INSERT, wildcard with metadata incl. the repaired D12 join, multi-pair RENAME, CTEs) x PYTHONHASHSEED in 0..3 (thorough 0..31), canonical dump of every public accessor; all 6 orders of the table accessors + 4 mixed/repeated orders on one runner",
+        "bound": "12 scripts (write-only statement, names differing only in letter case, chains, self loop, diamond paths, metadata-positional INSERT, wildcard with metadata incl. the repaired D12 join, multi-pair RENAME, CTEs) x PYTHONHASHSEED in 0..3 (thorough 0..31), canonical dump of every public accessor; all 6 orders of the table accessors + 4 mixed/repeated orders on one runner; + both path flags (exclude_subquery_columns, exclude_path_ending_in_subquery) in 7 call orders on one runner, incl. 2 scripts with a path ending in a sub-query",
     }
 ]
 LEVEL_TEXT = (
